@@ -14,7 +14,7 @@ import z3
 from . import extract
 from .spec import Snap, REGISTRY
 from .symexec import Args, exc_isa
-from .values import VVal, VBool, VInt, VAttr
+from .values import VVal, VBool, VInt, VAttr, Shadow
 from .z import Ctx
 
 NATIVE_PY = "/venv/bin/python"
@@ -69,8 +69,6 @@ def net_labels(st, out):
         sublabels(row[0], out)
         sublabels(row[1], out)
     sublabels(st["net_attr"], out)
-    for nm in st.get("shadow", []):
-        sublabels(["s", nm], out)
 
 
 class Concrete:
@@ -231,7 +229,10 @@ class Concrete:
         kw["netv"] = nv
         kw["uid"] = z3.IntVal(st["uid"])
         kw["frozen"] = z3.BoolVal(bool(st.get("frozen")))
-        kw["shadow"] = self.setof([["s", nm] for nm in st.get("shadow", [])])
+        sh = Shadow("concrete", False)
+        for nm in st.get("shadow", []):
+            sh.set(nm)
+        kw["shadow"] = sh
         kw["warned"] = z3.BoolVal(False)
         return Snap.from_terms(kind, **kw)
 
